@@ -233,7 +233,7 @@ package internal
 //@   ensures [all] result == nil && old(armed(&t.slot, PollerReadEvent)) ==> t.slot.Events == old(t.slot.Events) &^ (PollerReadEvent | PollerWriteEvent)
 //@   ensures [count] result == nil && old(armed(&t.slot, PollerReadEvent)) ==> t.poller.pending == old(t.poller.pending) - 1 - (old(armed(&t.slot, PollerWriteEvent)) ? 1 : 0)
 //@   // disarming stops the kernel timer first: expiration zero, interval zero
-//@   assert call TimerfdSettime: arg0 == t.fd && arg2.Value.Sec == 0 && arg2.Value.Nsec == 0 && arg2.Interval.Sec == 0 && arg2.Interval.Nsec == 0
+//@   assert call TimerfdSettime: arg0 == t.fd && arg1 == 0 && arg2.Value.Sec == 0 && arg2.Value.Nsec == 0 && arg2.Interval.Sec == 0 && arg2.Interval.Nsec == 0
 
 //@ func (*Timer).Set
 //@   prop C04, C03
